@@ -437,72 +437,171 @@ func retBool(p *ir.Path) (bool, bool) {
 func predicateNext(c *core.Ctx, rule, name string, fn *ssa.Function, an *ir.Analysis, pair, isFilter bool) {
 	ok := true
 	nTrue := 0
-	for _, p := range an.AllPaths() {
-		evs := iterEvents(p)
-		var nexts, users []itEv
-		for _, e := range evs {
+	fail := func(pos token.Pos, format string, a ...any) {
+		ok = false
+		c.Fail(rule, name, pos, format, a...)
+	}
+	// the fact carried across loop heads: "the inner iterator X has advanced successfully and its new element has
+	// not been shown to the predicate yet" (X = advOn). A loop that tests first and advances at its end (a shared
+	// seek helper) establishes it on its back edge instead of at the top of the pass.
+	type adv struct {
+		fresh bool
+		on    *ir.Term
+	}
+	endFact := func(p *ir.Path, start adv) adv {
+		st := start
+		for _, e := range iterEvents(p) {
 			switch e.kind {
 			case "next":
-				nexts = append(nexts, e)
+				st = adv{polarity(p, e.st.R) > 0, e.on}
 			case "user":
-				users = append(users, e)
+				st = adv{false, nil}
 			}
+		}
+		return st
+	}
+	facts := map[*ssa.BasicBlock]adv{}
+	for _, h := range an.Headers {
+		facts[h] = adv{true, nil} // optimistic start, lowered to the meet over the arrivals
+	}
+	for round := 0; round < 8; round++ {
+		changed := false
+		for _, h := range an.Headers {
+			meet := adv{true, nil}
+			first := true
+			for _, ps := range an.Segs {
+				for _, q := range ps {
+					if q.To != h {
+						continue
+					}
+					start := adv{false, nil}
+					if q.From != nil {
+						start = facts[q.From]
+					}
+					e := endFact(q, start)
+					if first {
+						meet, first = e, false
+						continue
+					}
+					if !e.fresh || !meet.fresh || (e.on != nil && meet.on != nil && !ir.Same(e.on, meet.on)) {
+						meet = adv{false, nil}
+					} else if meet.on == nil {
+						meet.on = e.on
+					}
+				}
+			}
+			if first {
+				meet = adv{false, nil}
+			}
+			if meet.fresh != facts[h].fresh || !ir.Same(meet.on, facts[h].on) {
+				facts[h] = meet
+				changed = true
+			}
+		}
+		if !changed {
+			break
+		}
+	}
+	for _, p := range an.AllPaths() {
+		evs := iterEvents(p)
+		st := adv{false, nil}
+		if p.From != nil {
+			st = facts[p.From]
 		}
 		rv, isRet := retBool(p)
-		if len(nexts) > 1 || len(users) > 1 {
-			ok = false
-			c.Fail(rule, name, lastPos(p), "a path advances the inner iterator %d times / calls the predicate %d times (want at most once each per step)", len(nexts), len(users))
+		verdict := 0 // +1: the predicate held on the fresh element (must return true); -1: it failed; 0: none pending
+		bad := false
+		for k, e := range evs {
+			if bad {
+				break
+			}
+			switch e.kind {
+			case "next":
+				if verdict > 0 {
+					fail(e.st.Pos(), "the predicate holds on the new element but Next advances again instead of returning true")
+					bad = true
+					break
+				}
+				if verdict < 0 && !isFilter {
+					fail(e.st.Pos(), "the predicate fails on the new element but Next does not return false")
+					bad = true
+					break
+				}
+				if st.fresh {
+					fail(e.st.Pos(), "the inner iterator advanced to an element that is neither tested nor reported")
+					bad = true
+					break
+				}
+				verdict = 0
+				switch polarity(p, e.st.R) {
+				case 1:
+					st = adv{true, e.on}
+				case -1:
+					st = adv{false, nil}
+					// exhausted: false, and nothing else
+					for _, e2 := range evs[k+1:] {
+						if e2.kind == "user" || e2.kind == "next" {
+							fail(e2.st.Pos(), "the inner iterator is exhausted but Next goes on")
+							bad = true
+						}
+					}
+					if !bad && !(isRet && !rv) {
+						fail(lastPos(p), "the inner iterator is exhausted but Next does not return false")
+						bad = true
+					}
+				default:
+					fail(e.st.Pos(), "the result of advancing the inner iterator is not tested")
+					bad = true
+				}
+			case "user":
+				if !st.fresh {
+					fail(e.st.Pos(), "the predicate is called without a successful inner Next() before it on this path")
+					bad = true
+					break
+				}
+				x, why := freshArgs(an, p, evs, e, pair)
+				if why != "" || (st.on != nil && !ir.Same(x, st.on)) {
+					fail(e.st.Pos(), "the predicate does not test the element the inner iterator just advanced to (%s)", why)
+					bad = true
+					break
+				}
+				st = adv{false, nil}
+				switch polarity(p, e.st.R) {
+				case 1:
+					verdict = 1
+				case -1:
+					verdict = -1
+				default:
+					fail(lastPos(p), "the predicate's result is not tested")
+					bad = true
+				}
+			}
+		}
+		if bad {
 			continue
 		}
-		if len(users) == 1 {
-			if len(nexts) != 1 || nexts[0].idx > users[0].idx || polarity(p, nexts[0].st.R) <= 0 {
-				ok = false
-				c.Fail(rule, name, users[0].st.Pos(), "the predicate is called without a successful inner Next() before it on this path")
-				continue
+		switch {
+		case verdict > 0:
+			if isRet && rv {
+				nTrue++
+			} else {
+				fail(lastPos(p), "the predicate holds on the new element but Next does not return true")
 			}
-			x, why := freshArgs(an, p, evs, users[0], pair)
-			if why != "" || !ir.Same(x, nexts[0].on) {
-				ok = false
-				c.Fail(rule, name, users[0].st.Pos(), "the predicate does not test the element the inner iterator just advanced to (%s)", why)
-				continue
+		case verdict < 0 && isFilter:
+			if p.To == nil {
+				fail(lastPos(p), "a rejected element must be skipped (loop to the inner Next), but the path leaves the loop")
 			}
-			pr := polarity(p, users[0].st.R)
-			switch {
-			case pr > 0:
-				if !(isRet && rv) {
-					ok = false
-					c.Fail(rule, name, lastPos(p), "the predicate holds on the new element but Next does not return true")
-				} else {
-					nTrue++
-				}
-			case pr < 0 && isFilter:
-				if p.To == nil {
-					ok = false
-					c.Fail(rule, name, lastPos(p), "a rejected element must be skipped (loop to the inner Next), but the path leaves the loop")
-				}
-			case pr < 0 && !isFilter:
-				if !(isRet && !rv) {
-					ok = false
-					c.Fail(rule, name, lastPos(p), "the predicate fails on the new element but Next does not return false")
-				}
-			default:
-				ok = false
-				c.Fail(rule, name, lastPos(p), "the predicate's result is not tested")
+		case verdict < 0 && !isFilter:
+			if !(isRet && !rv) {
+				fail(lastPos(p), "the predicate fails on the new element but Next does not return false")
 			}
-			continue
-		}
-		// no predicate call on this path
-		if isRet && rv {
-			ok = false
-			c.Fail(rule, name, lastPos(p), "Next returns true without testing the predicate on the new element")
-		}
-		if len(nexts) == 1 && polarity(p, nexts[0].st.R) > 0 && p.Exit == ir.ExitReturn {
-			ok = false
-			c.Fail(rule, name, lastPos(p), "the inner iterator advanced to an element that is neither tested nor reported")
-		}
-		if len(nexts) == 1 && polarity(p, nexts[0].st.R) < 0 && !(isRet && !rv) {
-			ok = false
-			c.Fail(rule, name, lastPos(p), "the inner iterator is exhausted but Next does not return false")
+		default:
+			if isRet && rv {
+				fail(lastPos(p), "Next returns true without testing the predicate on the new element")
+			}
+			if st.fresh && p.Exit == ir.ExitReturn {
+				fail(lastPos(p), "the inner iterator advanced to an element that is neither tested nor reported")
+			}
 		}
 	}
 	if ok && nTrue > 0 {
